@@ -281,6 +281,54 @@ theorem memo_transparent_dnf_untainted (hashOf : HIn → Nat) (fuel : Nat)
     MState.init (by intro t k hk; simp [MState.init, TMap.get] at hk)] at h
   exact memo_transparent_dnf hashOf fuel _ t k r h
 
+/-- `parse_marker(text)` made while the thread already has frames `stk` on its lists (it is called from inside
+`_merge_single_markers` and `invert`): if the top-level `union(*sub_markers)` run is taint-free, the result is that of
+a call from a quiescent thread. -/
+theorem parse_marker_stack_irrelevant (stk : Stack) (text : String)
+    (h : parseMarkerT stk text ≠ .error taint) : parseMarkerTopStk stk text = parseMarkerTop text := by
+  rw [← parseMarkerTopStk_nil]
+  unfold parseMarkerTopStk
+  have : parseMarkerStk stk text = parseMarkerStk [] text := by
+    unfold parseMarkerStk
+    unfold parseMarkerT at h
+    by_cases h1 : (text == "<empty>") = true
+    · simp [h1]
+    · by_cases h2 : (text.isEmpty || text == "*") = true
+      · simp [h1, h2]
+      · simp only [h1, h2, Bool.false_eq_true, if_false] at h ⊢
+        cases hs : parseText text with
+        | error e => simp [bind, Except.bind]
+        | ok syn =>
+          cases hc : compactSubMarkers syn with
+          | error e => simp [bind, Except.bind, hc]
+          | ok subs =>
+            simp only [hs, hc, bind, Except.bind] at h ⊢
+            simpa using union_stack_irrelevant defaultFuel [] stk subs h
+  rw [this]
+
+/-- **memo_transparent for the `parse_marker` cache as the code runs it** (keyed by the text; the wrapped function reads
+the calling thread's recursion stack): whenever the taint-tracking run is taint-free for every stack that occurs and
+every text that is called, every completed call in every interleaving returned `parse_marker(text)` of a quiescent
+thread. -/
+theorem memo_transparent_parse_marker_untainted (hashOf : String → Nat)
+    (sched : List (Stack × Tid × MAct String))
+    (hfree : ∀ e, e ∈ sched → ∀ e', e' ∈ sched → ∀ k, e'.2.2 = .call k → parseMarkerT e.1 k ≠ .error taint)
+    (t : Tid) (k : String) (r : PyM M)
+    (h : (t, k, r) ∈ (runCtx (fun stk text => parseMarkerTopStk stk text) hashOf (fun a b => a == b)
+        MState.init sched).log) :
+    r = parseMarkerTop k := by
+  rw [runCtx_pure_on (fun stk text => parseMarkerTopStk stk text) _ _ []
+    (fun k => ∀ e, e ∈ sched → parseMarkerT e.1 k ≠ .error taint)
+    sched (fun e' he' k hk e he => hfree e he e' he' k hk)
+    (fun e he k hP => by
+      simp only [parseMarkerTopStk_nil]
+      exact parse_marker_stack_irrelevant e.1 k (hP e he))
+    MState.init (by intro t k hk; simp [MState.init, TMap.get] at hk)] at h
+  have hspec : (⟨fun text => parseMarkerTopStk [] text, hashOf, fun a b => a == b⟩ : MemoSpec String M) =
+      parseSpec hashOf := rfl
+  rw [hspec] at h
+  exact memo_transparent_parse_marker hashOf _ t k r h
+
 /-! ### per-thread recursion stacks -/
 
 /-- **stack_noninterference**: at any point of any interleaving, thread `t`'s `call_args` list and the
